@@ -35,6 +35,9 @@ Record ccase := {
   c_handlers : nat;           (* callback handlers passed with WithCallbacks *)
   c_cb_sides : list nat;      (* for every lambda execution: how many sides of its own paradigm are streams (0..2) *)
   c_cb_copies : list Z;       (* observed: sizes of the Copy calls of callbacks.OnWithStreamHandle *)
+  c_interrupt : bool;         (* the case is the first segment of an interrupted run: schedule up to the
+                                 pass followed by the interrupt exit, observables until the interrupt was returned *)
+  c_cp_drains : nat;          (* observed: streams concatenated by checkPointer.convertCheckPoint *)
 }.
 
 Definition mkc (w c : list key) (bs : list bdecl) : call := {| c_write_to := w; c_controls := c; c_branches := bs |}.
@@ -46,7 +49,14 @@ Definition mkR (dag eager : bool) (calls : list (key * call)) (sched : list batc
                (handlers : nat) (sides : list nat) (cbc : list Z) : ccase :=
   {| c_graph := {| g_dag := dag; g_eager := eager; g_calls := calls |}; c_sched := sched; c_subs := subs;
      c_copies := cp; c_resolve_closes := rc; c_update_closes := uc; c_chan_closes := cc; c_skip_closes := sc;
-     c_merges := mg; c_fired := fired; c_handlers := handlers; c_cb_sides := sides; c_cb_copies := cbc |}.
+     c_merges := mg; c_fired := fired; c_handlers := handlers; c_cb_sides := sides; c_cb_copies := cbc;
+     c_interrupt := false; c_cp_drains := 0 |}.
+Definition mkI (dag : bool) (calls : list (key * call)) (sched : list batch)
+               (cp : list Z) (rc uc cc sc : nat) (mg : list nat) (drains : nat) : ccase :=
+  {| c_graph := {| g_dag := dag; g_eager := false; g_calls := calls |}; c_sched := sched; c_subs := [];
+     c_copies := cp; c_resolve_closes := rc; c_update_closes := uc; c_chan_closes := cc; c_skip_closes := sc;
+     c_merges := mg; c_fired := []; c_handlers := 0; c_cb_sides := []; c_cb_copies := [];
+     c_interrupt := true; c_cp_drains := drains |}.
 
 Fixpoint zlist_eqb (a b : list Z) : bool :=
   match a, b with
@@ -108,7 +118,7 @@ Definition predict_run (g : graph) (sched : list batch) : res rpred :=
       Ok {| q_copies := s_log (rs_store st); q_resolve := l_resolve_closes l; q_update := l_update_closes l;
             q_chan := l_chan_closes l; q_skip := l_skip_closes l; q_merges := l_merges l;
             q_fired := filter (fun k => negb (N.eqb k kEND)) (l_fired l);
-            q_ok := nodup_keys (all_keys g) && negb (memb kEND (all_keys g)) && (negb (g_dag g) || covered g)
+            q_ok := nodup_keys (all_keys g) && negb (memb kEND (all_keys g)) && (negb (g_dag g) || covered g && all_reach g)
                     && match dropped with [] => true | _ => false end
                     && nlist_eqb (rs_pending st) [kEND]
                     && (negb (g_dag g) || all_finished g st)
@@ -141,7 +151,49 @@ Definition bad_callbacks (c : ccase) : bool :=
   let sites := (2 * (1 + List.length (c_subs c)) + fold_right Nat.add 0%nat (c_cb_sides c))%nat in
   negb (zlist_eqb (callback_copies (c_handlers c) sites) (c_cb_copies c)).
 
-Definition bad (c : ccase) : bool := bad_tasks c || bad_run c || bad_callbacks c.
+(* ---- (d) the first segment of an interrupted run: the run up to the last recorded pass is Running,
+   calculateNextTasks of that pass does not reach END, the interrupt exit drains the streams held by
+   the channels and the inputs of the tasks about to start — and nothing stays live
+   (theorem interrupt_exit_drains) *)
+Fixpoint split_last {A} (l : list A) : option (list A * A) :=
+  match l with
+  | [] => None
+  | [a] => Some ([], a)
+  | a :: l' => match split_last l' with Some (r, z) => Some (a :: r, z) | None => None end
+  end.
+
+Definition bad_interrupt (c : ccase) : bool :=
+  let g := c_graph c in
+  match split_last (c_sched c) with
+  | None => true
+  | Some (pre, last) =>
+      match run g pre with
+      | Ok (Running st) =>
+          match calc_next g last st with
+          | Ok (ready, st4) =>
+              match checkpoint_drain g ready st4 with
+              | Ok s =>
+                  let l := rs_log st4 in
+                  negb (zlist_eqb (sort_by Z.ltb (s_log (rs_store st4))) (c_copies c)
+                        && Nat.eqb (l_resolve_closes l) (c_resolve_closes c)
+                        && Nat.eqb (l_update_closes l) (c_update_closes c)
+                        && Nat.eqb (l_chan_closes l) (c_chan_closes c)
+                        && Nat.eqb (l_skip_closes l) (c_skip_closes c)
+                        && natlist_eqb (sort_by Nat.ltb (l_merges l)) (c_merges c)
+                        && Nat.eqb (List.length (held g st4 ++ map snd ready)) (c_cp_drains c)
+                        && match nlist_get kEND ready with None => true | Some _ => false end
+                        && nodup_keys (all_keys g) && negb (memb kEND (all_keys g)) && (negb (g_dag g) || covered g)
+                        && match s_open s with [] => true | _ => false end)
+              | _ => true
+              end
+          | _ => true
+          end
+      | _ => true
+      end
+  end.
+
+Definition bad (c : ccase) : bool :=
+  if c_interrupt c then bad_interrupt c else bad_tasks c || bad_run c || bad_callbacks c.
 Definition mismatches (cs : list ccase) : list nat := mismatches_from bad 0 cs.
 
 (* for debugging a replay: what the run model computed *)
